@@ -120,7 +120,7 @@ def main(ck):
             continue
         if row.get("fail"):
             ck.hits.append(dict(what="%s on program %s" % (row["fail"], w), key=violation_key(p, row),
-                                replay=dict(harness="h_c02", program=w, observed=row)))
+                                replay=dict(harness="h_c02", program=w, key=violation_key(p, row), observed=row)))
             continue
         if d is None:
             bad.append((w, "model evaluation failed: %s" % (logs[0][-600:] if logs else "")))
